@@ -7,10 +7,72 @@
 -/
 import Xsel.Protocol
 import Xsel.SpecStore
+import Xsel.Parse
+import Xsel.Render
 open Xsel
+open Xsel.Syntax (Tok LTok LexRes ParseRes LexCfg Cfg lex parseToks parseModel parseSpec normCtx lexModel lexSpec cfgModel cfgSpec)
 
 structure DState where
   docs : List (String × Arena) := []
+
+/-! ### expression strings: tokens, the model's and the specification's reading -/
+
+def tokText : Tok → Chars
+  | .p x => x.term.toList
+  | .kw k => k.chars
+  | .ncname s => s
+  | .digits s => s
+  | .lit _ s => s
+  | .var s => s
+
+def encToks (ts : List LTok) : String :=
+  ",".intercalate (ts.map (fun t => s!"{t.tok.term}:{encStr (tokText t.tok)}:{if t.glued then 1 else 0}"))
+
+def encLex : LexRes → String
+  | .ok ts => "(" ++ encToks ts ++ ")"
+  | .err => "err"
+  | .unsup => "unsup"
+
+def verdict : ParseRes → String
+  | .ok _ => "ok" | .err => "err" | .unsup => "unsup"
+
+/-- the reading of `cs` under an arbitrary mix of the switches (no `unsup` refinement) -/
+def parseWith (lc : LexCfg) (c : Cfg) (cs : Chars) : ParseRes :=
+  match lex lc cs with
+  | .unsup => .unsup
+  | .err => .err
+  | .ok ts => match parseToks c ts with | some e => .ok e | none => .err
+
+/-- which single switch, moved from xsel's setting to XPath's, turns the model's accept/reject verdict
+    into the specification's ("multi": no single one does) -/
+def kfSwitches (cs : Chars) : String :=
+  let want := verdict (parseSpec cs)
+  let flips : List (String × LexCfg × Cfg) := [
+    ("opNames", lexModel, { cfgModel with opNames := true }),
+    ("fnNames", lexModel, { cfgModel with fnNames := true }),
+    ("trailDot", lexModel, { cfgModel with trailDot := true }),
+    ("uscore", { lexModel with uscore := true }, cfgModel),
+    ("xmlSpace", { lexModel with xmlSpace := true }, cfgModel)]
+  let hit := flips.filter (fun f => verdict (parseWith f.2.1 f.2.2 cs) == want)
+  if hit.isEmpty then "multi" else ",".intercalate (hit.map (·.1))
+
+/-- answer to `syn`: the model lexer's tokens, the two verdicts, whether the model's tree is the given one -/
+def synAnswer (cs : Chars) (given : Option Expr) : String :=
+  let m := parseModel cs
+  let sp := parseSpec cs
+  let ast := match m, given with
+    | .ok e, some g => if Expr.same (normCtx e) (normCtx g) then "1" else "0"
+    | _, _ => "-"
+  let kf := if verdict m != "unsup" && verdict sp != "unsup" && verdict m != verdict sp then kfSwitches cs else "-"
+  -- the canonical spelling of the given tree reads back as the tree, under xsel's syntax and XPath's
+  let rt := match given with
+    | some g =>
+      let ts := Xsel.Syntax.renderTop g
+      let okm := match parseToks cfgModel ts with | some e => Expr.same e (normCtx g) | none => false
+      let oks := match parseToks cfgSpec ts with | some e => Expr.same e (normCtx g) | none => false
+      if okm && oks then "1" else "0"
+    | none => "-"
+  s!"toks={encLex (lex lexModel cs)} build={verdict m} sbuild={verdict sp} ast={ast} rt={rt} kf={kf}"
 
 def findDoc (st : DState) (id : String) : Option Arena := (st.docs.find? (fun p => p.1 == id)).map (·.2)
 
@@ -28,6 +90,28 @@ def handle (st : DState) (line : String) : DState × String :=
     | _, none, _, _ => (st, "bad-env")
     | _, _, none, _ => (st, "bad-start")
     | _, _, _, none => (st, "bad-expr")
+  | some (.list [.atom "syn", xs]) =>
+    match decStrS xs with
+    | some cs => (st, synAnswer cs none)
+    | none => (st, "bad-syn")
+  | some (.list [.atom "syn", xs, ex]) =>
+    match decStrS xs, decExpr ex with
+    | some cs, some e => (st, synAnswer cs (some e))
+    | _, _ => (st, "bad-syn")
+  | some (.list [.atom "evalx", .atom id, env, .atom start, xs]) =>
+    -- evaluation of an expression STRING: the model parses it itself
+    match findDoc st id, decEnv env, decNat start, decStrS xs with
+    | some a, some en, some s, some cs =>
+      let run (r : ParseRes) (f : Expr → Except Err Val) : String :=
+        match r with
+        | .ok e => encResult (f e)
+        | .err => "builderr"
+        | .unsup => "unsup"
+      let m := parseModel cs
+      let sp := parseSpec cs
+      let kf := if verdict m != "unsup" && verdict sp != "unsup" && verdict m != verdict sp then kfSwitches cs else "-"
+      (st, s!"model={run m (Model.run a en s)} spec={run sp (Spec.run a en s)} speckf={run sp (Spec.runKF a en s)} kf={kf}")
+    | _, _, _, _ => (st, "bad-evalx")
   | some (.list [.atom "store", .list (.atom "evs" :: evs), ar]) =>
     -- the real tree (dump) against the model builder and the specification of the stream's tree
     match evs.mapM decEv, decArena ar with
